@@ -20,6 +20,10 @@ type lexDef struct {
 	build   func() lexer.Definition
 	corpus  []string
 	delims  bool // corpus contains {D0}.. placeholders
+	// patterns that scan to the end of the input before failing (an unclosed comment opener): a
+	// document repeated thousands of times costs quadratic real time inside regexp, which no step
+	// cap sees; such definitions get no huge inputs
+	noHuge bool
 }
 
 func popRootRules() lexer.Rules {
@@ -323,6 +327,55 @@ func lazyRules() lexer.Rules {
 	}}
 }
 
+// sectionedRules: a rule that both contains a back-reference and pushes a state (sections nested
+// in a here-document, each keyed on what its parent captured).
+func sectionedRules() lexer.Rules {
+	return lexer.Rules{
+		"Root": {
+			{Name: "Open", Pattern: `<<([^\s:]+)`, Action: lexer.Push("Doc")},
+			{Name: "Ident", Pattern: `\w+`},
+			{Name: "whitespace", Pattern: `\s+`},
+		},
+		"Doc": {
+			{Name: "Section", Pattern: `\1:([^\s:]+)`, Action: lexer.Push("Section")},
+			{Name: "Close", Pattern: `\1\b`, Action: lexer.Pop()},
+			{Name: "Ident", Pattern: `\w+`},
+			{Name: "Punct", Pattern: `[:<]`},
+			{Name: "whitespace", Pattern: `\s+`},
+		},
+		"Section": {
+			{Name: "SectionEnd", Pattern: `\1\b`, Action: lexer.Pop()},
+			{Name: "Ident", Pattern: `\w+`},
+			{Name: "Punct", Pattern: `[:<]`},
+			{Name: "whitespace", Pattern: `\s+`},
+		},
+	}
+}
+
+// pointerActionRules: actions given as pointers (&lexer.ActionPush{...}), as rule maps assembled by
+// a program often carry them; *ActionPush and *ActionPop implement lexer.Action like the values
+// lexer.Push and lexer.Pop return.  The patterns of these rules can match the empty string.
+func pointerActionRules() lexer.Rules {
+	return lexer.Rules{
+		"Root": {
+			{Name: "Word", Pattern: `\w+`},
+			{Name: "space", Pattern: `[ \t]+`},
+			{Name: "EOL", Pattern: `\n`},
+			{Name: "Open", Pattern: `\(*`, Action: &lexer.ActionPush{State: "In"}},
+		},
+		"In": {
+			{Name: "Word", Pattern: `\w+`},
+			{Name: "ws", Pattern: `\s+`},
+			{Name: "mark", Pattern: `#?`, Action: &lexer.ActionPush{State: "Annotation"}},
+			{Name: "Close", Pattern: `\)*`, Action: &lexer.ActionPop{}},
+		},
+		"Annotation": {
+			{Name: "Tag", Pattern: `[a-z]+:`},
+			lexer.Return(),
+		},
+	}
+}
+
 func mustRules(r lexer.Rules) lexer.Definition {
 	d, err := lexer.New(r)
 	if err != nil {
@@ -354,7 +407,7 @@ var coreLexDefs = []*lexDef{
 		corpus: []string{"1 @a.b 2 @c", "1 ?", "ab.c 12", "@a.b.c!", "yz", "12 @x @y.z 3", ""}},
 	{name: "interp", rules: interpRules, genName: "Interp", build: func() lexer.Definition { return mustRules(interpRules()) },
 		corpus: []string{`"hello ${user + "${last}"}"`, `"a\"b$c${x * "y"}"`, `"${"${"${1}"}"}"`, `"unterminated ${x`, `"esc\`, ""}},
-	{name: "badbackref", rules: badBackrefRules, build: func() lexer.Definition { return mustRules(badBackrefRules()) },
+	{name: "badbackref", rules: badBackrefRules, genName: "OptBadBackref", build: func() lexer.Definition { return mustRules(badBackrefRules()) },
 		corpus: []string{"a b <<END x END", "a % b !", "% %", "x <<Q", ""}},
 	{name: "nullable-elided", rules: nullableElidedRules, genName: "NullableElided", build: func() lexer.Definition { return mustRules(nullableElidedRules()) },
 		corpus: []string{"a = b;", "a = $b", "a  ;  ", "%", ""}},
@@ -374,12 +427,16 @@ var coreLexDefs = []*lexDef{
 		corpus: []string{"<<END <b></b> END", "a <<X w <i></i> <j> y X b", "<<E <b></c> E", "<<E <b>", ""}},
 	{name: "quantified-backref", rules: quantifiedBackrefRules, build: func() lexer.Definition { return mustRules(quantifiedBackrefRules()) },
 		corpus: []string{`a r#"raw "quoted" text"# b r"plain" c`, `==[ x == y ]== z`, `[ empty group ] w`, `r##"never closed"#`, `=[ a = b`, ""}},
-	{name: "lazy", rules: lazyRules, genName: "OptLazy", build: func() lexer.Definition { return mustRules(lazyRules()) },
+	{name: "lazy", rules: lazyRules, genName: "OptLazy", noHuge: true, build: func() lexer.Definition { return mustRules(lazyRules()) },
 		corpus: []string{"a <!-- c - d --> b /* x * y */ [a,b,] <tag>", "<!-- open - comment", "[a,b $ ]", "/* never closed *", "<!---->[]", ""}},
 	{name: "fence", rules: fenceRules, build: func() lexer.Definition { return mustRules(fenceRules()) },
 		corpus: []string{"a *** code * here *** b", "... x . y ... ++ p + q ++", "$$ 1 $ 2 $$ [[ a [ b [[ (? x ( y (?", "\\\\ back \\ slash \\\\ done", "**** four **** *** open", ""}},
 	{name: "optgroup", rules: optGroupRules, build: func() lexer.Definition { return mustRules(optGroupRules()) },
 		corpus: []string{"a <<-END x y END b", "a <<END x END b", "<<- x", "<<E", ""}},
+	{name: "sectioned", rules: sectionedRules, genName: "OptSectioned", build: func() lexer.Definition { return mustRules(sectionedRules()) },
+		corpus: []string{"a <<DOC x DOC:sec y z sec w DOC b", "<<A A:b A:b", "<<A A:b b A:c c A d", "<<A A: x", "<<A A:b", "<<\xffT x \xffT y", "<<T T:\xc3 a \xc3 T", "<<\u00e9t\u00e9 \u00e9t\u00e9:\u00fc x \u00fc \u00e9t\u00e9", ""}},
+	{name: "pointer-actions", rules: pointerActionRules, build: func() lexer.Definition { return mustRules(pointerActionRules()) },
+		corpus: []string{"a (b c) d\n", "a ((b #todo: c)) d", "a ! b", "(a , b)", "(a #x: ! b)", "((a)", "foo\n) bar", ""}},
 	{name: "basic-runtime", build: basicRuntimeDef, genName: "",
 		corpus: []string{" 5  PRINT \"Factorial of:\"\n10  LET B = 1\n40  IF A <= 1 THEN 80\n", "10 LET X = ( 1 + ( 2 * Y ) ) / 3.5\n20 print \"ünï\\\"cødé\" + X\n", "10 REM comment\n20 PRINT \"open", ""}},
 	{name: "basic-generated", build: func() lexer.Definition { return verifshim.GeneratedBasicLexer() },
